@@ -8,21 +8,6 @@ namespace Kopf.C17
 section Idx
 variable {K V O : Type} [DecidableEq K] [DecidableEq O]
 
-/-- forward and reverse map agree: `k ∈ rev[o] ↔ o ∈ fwd[k]` -/
-def Index.Cons (ix : Index K V O) : Prop := ∀ k o, k ∈ ix.rkeys o ↔ (ix.val k o).isSome
-/-- no empty store is left in the forward map -/
-def Index.StoreNe (ix : Index K V O) : Prop := ∀ k st, aget k ix.items = some st → st ≠ []
-/-- no empty set is left in the reverse map -/
-def Index.RevNe (ix : Index K V O) : Prop := ∀ o r, aget o ix.reverse = some r → r ≠ []
-/-- representation invariant of "Python set as list" -/
-def Index.RevNodup (ix : Index K V O) : Prop := ∀ o r, aget o ix.reverse = some r → r.Nodup
-
-structure Index.Inv (ix : Index K V O) : Prop where
-  cons : ix.Cons
-  storeNe : ix.StoreNe
-  revNe : ix.RevNe
-  revNodup : ix.RevNodup
-
 theorem Index.inv_empty : (Index.empty : Index K V O).Inv :=
   ⟨by intro k o; simp [Index.rkeys, Index.val, Index.empty],
    by intro k st h; simp [Index.empty] at h,
